@@ -28,7 +28,8 @@ def ev_cfg(maxops, maxid=3, prios=(0, 1)):
 def replay_events(ctx, hist, origin):
     # every history is replayed with two bindings of the result of the Returning callback: its name (truthy) and 0 (falsy but
     # not None) -- emit_until_result is documented to stop at the first result that `is not None`
-    return all([_replay_events(ctx, hist, origin, rv) for rv in ('r', 0)])
+    uses_result = any(st['l']['op'] == 'emit_until_result' for st in hist) and any(st['l'].get('cb') == 'r' for st in hist)
+    return all([_replay_events(ctx, hist, origin, rv) for rv in (('r', 0) if uses_result else ('r',))])
 
 
 def _replay_events(ctx, hist, origin, rv):
